@@ -6,8 +6,8 @@ sequence of pieces to core::fmt:
     ['-' iff x < 0]  [decimal rendering of I]  and, iff p > 0,  ['.']  [F zero-padded to width p]
 with I >= 0, 0 <= F < 10^p and I*10^p + F = |x|.  Hence (core's integer formatting trusted: no leading zeros, zero padding to
 the width) the string is: optional '-', the integer part, and iff p > 0 a '.' followed by exactly p digits.
-NOT decided: that parsing this string gives the Decimal back (depends on the parser's value semantics, C06's undecided part),
-the serde clause.
+Round trip: composition of this shape with C06's value and grammar clauses and C18's folding cells (premises re-run here as DEP
+obligations; the composition argument is in DESIGN.md 12.10).
 """
 from ..absint import Interp, Opts, ByRef, Agg, Int, Opaque, SliceVal, State, ZERO, NEG, POS, NONNEG, NONPOS
 from ..harness import (dec_coeff, M, SCALES_ALL, dec_val, poly_eq, show_outcome, show_poly, get_db, run_jobs, notes_of)
@@ -123,6 +123,10 @@ def show_pieces(s, pcs):
 
 
 def run_job(job):
+    return run_job_any(job)
+
+
+def run_job_render(job):
     p, xcls = job
     db = get_db()
     rt = roots(db)
@@ -242,18 +246,56 @@ def pieces_of_merge(pcs):
     return norm
 
 
+def dep_job(job):
+    """premises of the round-trip argument, re-run here: the parser's value and grammar clauses (C06) and the folding of (c, -p) into a Decimal (C18)"""
+    from . import c06, c18
+    kind, j = job
+    res = c06.run_job(j) if kind == 'c06' else c18.run_job(j)
+    return [('DEP-' + r, k, ok, d, s) for (r, k, ok, d, s) in res]
+
+
+def run_job_any(job):
+    if job and job[0] in ('c06', 'c18'):
+        return dep_job(job)
+    return run_job_render(job)
+
+
 def run(rep, tier):
     db = get_db()
     rep.tree_hash = db.tree_hash
     rep.configs = ['default']
     rep.level = 'other'
     jobs = [(p, xc) for p in SCALES_ALL for xc in ('neg', 'zero', 'pos')]
-    run_jobs(rep, __name__, jobs)
+    deps = [('c06', ('value+grammar', None))] + [('c18', (e, e)) for e in range(-18, 1)]
+    run_jobs(rep, __name__, deps + jobs)
     rep.floor('B-RENDER', len(jobs))
+    rep.floor('DEP-V-PARSE-VALUE', 1)
+    rep.floor('DEP-G-PARSE-GRAMMAR', 1)
+    rep.floor('DEP-B-MACRO', 19)
+    # the canonical shape is a literal of the parser's grammar (DFA of C06), for every scale and sign
+    from .c06 import grammar_verdict
+    for p in SCALES_ALL:
+        for neg in (False, True):
+            toks = ([('CH', 45)] if neg else []) + [('digits',)] + ([('CH', 46), ('digits',)] if p > 0 else []) + [('END',)]
+            mv, mi, complete = grammar_verdict(toks)
+            rep.ob('R-SHAPE-IN-GRAMMAR', 'p=%d;%s' % (p, 'neg' if neg else 'nonneg'), mv and not mi and complete, 'the canonical rendering ["-"] digits ["." digits] must be a complete literal of the grammar')
+    rep.floor('R-SHAPE-IN-GRAMMAR', 38)
+    # the string conversions the serde attributes and users go through forward to from_str
+    from ..rules import fwd
+    fs = db.find_impl_fn('core::str::traits::FromStr', ['Decimal'], 'from_str')
+    for src in ('&str', 'std::string::String'):
+        fn = db.find_impl_fn('core::convert::TryFrom', ['Decimal', src], 'try_from')
+        sh, why = fwd.shape_multi(fn) if fn else (None, 'missing')
+        ok = bool(sh) and sh[-1]['callee'] == (fs or {}).get('id') and sh[-1]['ret'] == 'returned' and len(sh) <= 2
+        rep.ob('R-FWD-STR', 'TryFrom<%s>' % src, ok, 'forwards to from_str: %s (%s)' % (sh, why))
     # to_string() is core's blanket impl over Display (no inherent / specialised to_string on Decimal)
     own = [f['id'] for f in db.fns.values() if f['name'] == 'to_string' and f['crate'] in ('fpdec', 'fpdec_core')]
     rep.ob('R-TOSTRING-BLANKET', 'no-own-to_string', not own, 'Decimal::to_string must be the blanket ToString over Display; found %s' % own)
-    rep.assume('NOT decided: the round trip through the parser (its value semantics are C06\'s undecided part) and the serde-as-str clause')
+    rep.assume('ROUND TRIP (composition argument, DESIGN.md 12.10; its premises are obligations of this check): the rendering is ["-" iff x < 0] digits(int) ["." digits(frac) of exactly p digits iff p > 0] with '
+               'int*10^p + frac = |x| (B-RENDER); this shape is a complete literal of the grammar (R-SHAPE-IN-GRAMMAR); for complete literals the parser returns Ok((c, e)) with c = +-D, sign from the sign byte, '
+               'e = -(number of fractional digits) and D the digits read as one number (DEP-V-PARSE-VALUE, DEP-G-PARSE-GRAMMAR, under contract A of the scanners); positional notation: D = int*10^p + frac = |x| '
+               '(trusted arithmetic of decimal numerals, core prints int and the zero-padded frac in decimal); from_str folds (c, -p) into Decimal(c, p) (DEP-B-MACRO cells e = -18..0). Hence parse(render(d)) has the '
+               'coefficient and the fractional digit count of d. serde-as-str: the derive with into = "String" / try_from = "String" (serde, trusted) uses String::from and TryFrom<String>, which forwards to from_str (R-FWD-STR).')
     rep.assume('core::fmt semantics trusted: integer Display prints a non-negative integer without leading zeros and "-" + |v| for negative v; {:0w$} pads with zeros to width w; '
                'Formatter::pad_integral under the default formatter (no width, no flags) writes "-" iff !is_nonnegative and then the buffer; template encoding of fmt::Arguments as documented in core (nightly used for extraction)')
     rep.explanation = ('Clause decided: the three renderings are one canonical string. Per scale (19) x sign class (3) the MIR of Display::fmt (default formatter, i.e. to_string), String::from(Decimal) and '
